@@ -285,4 +285,21 @@ PROPS = {
             det("known_finding_probe", "^TestC06KnownK1$"),
         ],
     },
+    "C07": {
+        "level": "exploration",
+        "level_text": "metamorphic search: the same per-PID packet sequences are sent in many order-preserving interleavings (random, and every merge "
+                      "of two short sequences), alone, and with foreign packets inserted; per-PID outputs must be identical; a corruption campaign "
+                      "confined to one PID must leave all other PIDs' outputs identical",
+        "level_note": "the relation is between runs of the library itself (metamorphic); agreement with the reference model of each run is C02's job; "
+                      "PAT-before-PMT ordering is kept in every merge (stated dependency)",
+        "technique": "rapid metamorphic testing over interleavings (random + bounded-exhaustive merges) and single-PID corruption",
+        "rule": "rapid-generated per-PID sequences; non-trivial = >= 3 PIDs with >= 2 units on one (merges), every case (all merges), >= 3 corrupted "
+                "packets and >= 2 other PIDs (corruption); distinct by stream bytes (+ corruption pattern)",
+        "assumptions": [],
+        "units": [
+            rap("merges", "^TestC07Merges$", 800, 8000, 4, 16),
+            rap("all_merges", "^TestC07AllMerges$", 300, 3000, 4, 16),
+            rap("corruption", "^TestC07Corruption$", 2500, 25000, 4, 16),
+        ],
+    },
 }
